@@ -42,11 +42,24 @@ def op_classes():
         ops = var_operand_def()
         traits = traits_def(SymbolOpInterface(), Pure())
 
+    from xdsl.irdl import var_region_def as _vr
+    from xdsl.traits import RecursiveMemoryEffect
+
+    @irdl_op_definition
+    class RecOp(IRDLOperation):
+        """an op whose memory effects are those of the ops nested in its (possibly multi-block) regions"""
+
+        name = "verif.rec"
+        res = var_result_def()
+        ops = var_operand_def()
+        regs = _vr()
+        traits = traits_def(RecursiveMemoryEffect())
+
     from xdsl.dialects.builtin import UnregisteredOp
 
     _CLS.update({"unreg_term": UnregisteredOp.with_name("unknown.br"), "unreg": UnregisteredOp.with_name("unknown.op"),
                  "pure": test.TestPureOp, "read": test.TestReadOp, "write": test.TestWriteOp, "unknown": test.TestOp,
-                 "term": test.TestTermOp, "pure_term": PureTermOp, "pure_symbol": PureSymbolOp, "symbol": test.TestSymbolOp})
+                 "term": test.TestTermOp, "pure_term": PureTermOp, "pure_symbol": PureSymbolOp, "symbol": test.TestSymbolOp, "rec": RecOp})
     return _CLS
 
 
@@ -62,7 +75,7 @@ def gen_graph(rng, max_blocks: int = 4, depth: int = 1):
     g_blocks: list[dict[str, Any]] = []
     g_regions: list[dict[str, Any]] = []
 
-    def new_region(parent_op_idx: int, level: int, outer_vals: list[tuple[Any, int]]):
+    def new_region(parent_op_idx: int, level: int, outer_vals: list[tuple[Any, int]], mostly_removable: bool = False):
         rid = len(g_regions) + 1
         g_regions.append({"par": parent_op_idx, "first": 0})
         nb = rng.randint(1, max_blocks if level == 0 else 2)
@@ -79,7 +92,9 @@ def gen_graph(rng, max_blocks: int = 4, depth: int = 1):
         region_ops: list[tuple[Any, int]] = []
         for b, bid in my_blocks:
             for _ in range(rng.randint(0, 4)):
-                kind = rng.choice(["pure", "pure", "pure", "read", "write", "unknown", "pure_symbol", "symbol", "unreg"])
+                kind = rng.choice(["pure", "pure", "pure", "read", "write", "unknown", "pure_symbol", "symbol", "unreg"] + (["rec", "rec"] if level < depth else []))
+                if mostly_removable and rng.random() < 0.85:
+                    kind = rng.choice(["pure", "pure", "read"])
                 operands = [rng.choice(vals) for _ in range(rng.choice([0, 1, 1, 2]))] if vals else []
                 regions = []
                 idx = len(ops) + 1
@@ -87,22 +102,27 @@ def gen_graph(rng, max_blocks: int = 4, depth: int = 1):
                 attrs = {"sym_name": StringAttr(f"s{idx}")} if kind == "pure_symbol" else {}
                 op = C[kind].create(operands=[v for v, _ in operands], result_types=[i32] * rng.choice([0, 1, 1, 2]), properties=props, attributes=attrs)
                 ops.append(op)
-                g_ops.append({"rem": 1 if kind in ("pure", "read") else 0, "blk": bid, "opn": [d for _, d in operands], "regs": [], "kind": kind})
+                g_ops.append({"rem": 1 if kind in ("pure", "read") else 0, "rec": 1 if kind == "rec" else 0, "blk": bid, "opn": [d for _, d in operands], "regs": [],
+                              "kind": kind})
                 b.add_op(op)
                 vals += [(r, idx) for r in op.results]
                 region_ops.append((op, idx))
-                if level < depth and kind == "unknown" and rng.random() < 0.4:
-                    sub = new_region(idx, level + 1, vals)
+                if level < depth and ((kind == "unknown" and rng.random() < 0.4) or kind == "rec"):
+                    # a recursive-effect op gets a (possibly multi-block) region of mostly removable ops and pure terminators
+                    sub = new_region(idx, level + 1, vals, mostly_removable=kind == "rec" and rng.random() < 0.8)
                     op.add_region(sub[0])
                     g_ops[idx - 1]["regs"].append(sub[1])
             # terminator
             kind = rng.choice(["term", "term", "pure_term", "unreg_term"])
+            if mostly_removable and rng.random() < 0.85:
+                kind = "pure_term"
             succ = [rng.choice(my_blocks) for _ in range(rng.choice([0, 1, 1, 2]))] if len(my_blocks) > 1 else []
             operands = [rng.choice(vals) for _ in range(rng.choice([0, 1]))] if vals else []
             idx = len(ops) + 1
             t = C[kind].create(operands=[v for v, _ in operands], successors=[sb for sb, _ in succ])
             ops.append(t)
-            g_ops.append({"rem": 0, "blk": bid, "opn": [d for _, d in operands], "regs": [], "kind": kind})
+            # a pure terminator is not removable on its own (IsTerminator), but it does not make an enclosing recursive-effect op observable
+            g_ops.append({"rem": 0, "rec": 0, "blk": bid, "opn": [d for _, d in operands], "regs": [], "kind": kind, "pure_in_rec": 1 if kind == "pure_term" else 0})
             b.add_op(t)
             g_blocks[bid - 1]["succ"] = [sid for _, sid in succ]
         # dead cycles / forward references across blocks: rewire some operands of pure ops to later results
@@ -120,7 +140,7 @@ def gen_graph(rng, max_blocks: int = 4, depth: int = 1):
 
     holder = test.TestOp.create()
     ops.append(holder)
-    g_ops.append({"rem": 0, "blk": 1, "opn": [], "regs": [], "kind": "unknown"})
+    g_ops.append({"rem": 0, "rec": 0, "blk": 1, "opn": [], "regs": [], "kind": "unknown"})
     # module body: region 1 / block 1 holds the holder op
     g_regions.append({"par": 0, "first": 1})
     body = Block()
@@ -131,7 +151,7 @@ def gen_graph(rng, max_blocks: int = 4, depth: int = 1):
     holder.add_region(sub[0])
     g_ops[0]["regs"].append(sub[1])
     module = ModuleOp(Region([body]))
-    return module, ops, blocks, {"ops": [{k: v for k, v in o.items() if k != "kind"} for o in g_ops], "blocks": g_blocks, "regions": g_regions}, [o["kind"] for o in g_ops]
+    return module, ops, blocks, {"ops": [dict({k: v for k, v in o.items() if k not in ("kind", "pure_in_rec")}, eff=0 if o["kind"] in ("pure", "read", "pure_term", "pure_symbol", "rec") else 1) for o in g_ops], "blocks": g_blocks, "regions": g_regions}, [o["kind"] for o in g_ops]
 
 
 def survivors(module, ops, blocks):
@@ -184,4 +204,4 @@ def run(ctx: Ctx):
                                  "unreachable blocks) x {dce pass, dce() helper, greedy applier with dce_enabled}; distinct = distinct graphs"})
     ctx.sample({"graph": cases[0]["g"], "kept": cases[0]["kept"], "keptb": cases[0]["keptb"], "kinds": metas[0]["kinds"]})
     ctx.assumptions += ["rem (would be trivially dead) per op kind: test.pureop / test.op_with_memread removable; writes, unknown effects, terminators and symbols not",
-                        "ops holding regions are never removable in generated graphs"]
+                        "ops holding regions are not removable except verif.rec (RecursiveMemoryEffect): removable iff no nested op in any block has a write / unknown effect"]
